@@ -328,6 +328,24 @@ private:
             original_name);
     }
 
+    // public members which group implementation type inherits from
+    // `flat_group_base`/`nested_group_base`. Class named like one of them would
+    // hide it by its injected-class-name (e.g. no `g.size()` for a group named
+    // `size`)
+    static bool is_group_base_member_name(const std::string& name)
+    {
+        static const std::unordered_set<std::string> names{
+            "value_type",      "reference",       "sbe_size_type",
+            "size_type",       "difference_type", "iterator",
+            "sbe_size",        "size",            "resize",
+            "empty",           "max_size",        "begin",
+            "end",             "front",           "back",
+            "clear",           "cursor_range_t",  "cursor_range",
+            "cursor_subrange", "cursor_iterator", "cursor_begin",
+            "cursor_end"};
+        return names.count(name) != 0;
+    }
+
     void handle_message_level(const sbe::level_members& members)
     {
         // field names are never mangled because they never introduce new types,
@@ -336,6 +354,7 @@ private:
         for(const auto& g : members.groups)
         {
             // group implementation type itself doesn't have any named members
+            // except the inherited ones
             const auto entry_members = get_member_names(g.members);
             const auto entry_name = make_group_entry_name(g.name);
 
@@ -350,7 +369,9 @@ private:
                || entry_members.count(entry_name)
                // group name should not clash with entry members because their
                // tags are located directly within the group's one
-               || entry_members.count(g.name))
+               || entry_members.count(g.name)
+               // group name should not hide an inherited member
+               || is_group_base_member_name(g.name))
             {
                 const auto mangled_group_info = make_mangled_group_info(
                     g.name,
